@@ -57,10 +57,8 @@ inductive SelMask where
 structure Pop (σ : Type) where
   m : Machine σ Ind
   init : σ
-  /-- the specification the model (as configured) is proved to meet -/
+  /-- the (full-strength) specification: every element of a batch counts as offered -/
   spec : Spec Ind
-  /-- the full-strength specification (differs from `spec` only for the short-circuiting Greedy) -/
-  specFull : Spec Ind
   offered0 : List Ind
   /-- a tape with which the model's `select` has the deterministic length -/
   tape : σ → Tape Ind
@@ -72,7 +70,7 @@ def greedyPop (cfg : Json) : R (Pop (Option Ind)) := do
   let c := cfgOf Ind.le Ind.fitEq (fun _ _ => false) 1 sel
   let sc := Greedy.repoShortCircuits
   return { m := greedyM sc c, init := init,
-           spec := greedySpec sc c, specFull := greedySpec false c,
+           spec := greedySpec false c,
            offered0 := init.toList, tape := fun _ => emptyTape, mask := fun _ => .exact }
 
 def elitismPop (cfg : Json) : R (Pop (ElState Ind)) := do
@@ -81,7 +79,7 @@ def elitismPop (cfg : Json) : R (Pop (ElState Ind)) := do
   let same ← dedupOf (← strF cfg "dedup")
   let c := cfgOf Ind.le Ind.fitEq same cap sel
   return { m := elitismM c, init := ElState.empty,
-           spec := elitismSpec c, specFull := elitismSpec c, offered0 := [],
+           spec := elitismSpec c, offered0 := [],
            tape := fun s => ⟨List.replicate (Elitism.selectionSize c s) 0, 1, []⟩, mask := fun _ => .firstCount }
 
 def rosomaxaPop (cfg : Json) : R (Pop (RState Ind)) := do
@@ -90,7 +88,7 @@ def rosomaxaPop (cfg : Json) : R (Pop (RState Ind)) := do
   let c := cfgOf Ind.le Ind.fitEq (Ind.sameRosomaxa 50) cap sel
   let rc : RCfg := ⟨← natF cfg "initial", ← natF cfg "er"⟩
   return { m := rosomaxaM c rc, init := RState.empty,
-           spec := rosomaxaSpec c, specFull := rosomaxaSpec c, offered0 := [],
+           spec := rosomaxaSpec c, offered0 := [],
            tape := fun _ => ⟨List.replicate sel 0, 1, []⟩,
            mask := fun s => match s.phase with
              | .initial => .exact
@@ -170,17 +168,13 @@ def runPop {σ : Type} (p : Pop σ) (j : Json) : R (List (String × Json)) := do
   let trace := List.zip ops implObs
   let complete := decide (trace.length = ops.length)
   let prevPhase := p.m.phase p.init
-  -- ORACLE: the full-strength specification, or at least the one the model is proved to meet (for the Greedy of
-  -- /repo: only the considered prefix of a batch counts as offered); an implementation that meets the full
-  -- property is never blamed. `info.full_property_holds` records which of the two it was.
-  let full := traceOK p.specFull p.offered0 p.offered0 prevPhase trace
-  let weak := traceOK p.spec p.offered0 p.offered0 prevPhase trace
-  let sp := if full then p.specFull else p.spec
-  let comps := components sp p.offered0 p.offered0 prevPhase trace (componentNames.map (fun n => (n, true)))
+  -- ORACLE: the full-strength specification on the implementation's trace (for Greedy too: the best known is no
+  -- worse than EVERY element of every batch — a short-circuiting `add_all` fails here)
+  let whole := traceOK p.spec p.offered0 p.offered0 prevPhase trace
+  let comps := components p.spec p.offered0 p.offered0 prevPhase trace (componentNames.map (fun n => (n, true)))
   return [("model", model),
-          ("oracle", Json.mkObj ((("trace_complete", Json.bool complete) :: ("spec_trace_ok", Json.bool (full || weak))
-            :: comps.map (fun c => (c.1, Json.bool c.2))))),
-          ("info", Json.mkObj [("full_property_holds", Json.bool full)])]
+          ("oracle", Json.mkObj ((("trace_complete", Json.bool complete) :: ("spec_trace_ok", Json.bool whole)
+            :: comps.map (fun c => (c.1, Json.bool c.2)))))]
 
 /-! whole runs of the evolution loop: the tape (what was handed to the population) comes from the run -/
 
@@ -205,25 +199,20 @@ def runSolve {σ : Type} (p : Pop σ) (j : Json) : R (List (String × Json)) := 
         (h :: r.1, r.2)
     let r := go s0 batches
     let model := Json.mkObj [("heads", Json.arr r.1.toArray), ("res", jList jInd ((p.m.ranked r.2).take 1))]
-    -- SPEC on the implementation's observations (full strength, or the one the model is proved to meet)
+    -- SPEC on the implementation's observations (full strength: whole batches count as offered)
     let offered0 := p.offered0 ++ singles
-    let rec chk (sp : Spec Ind) (offered : List Ind) : List (Option Ind) → List (List Ind) → Bool × List Ind
+    let rec chk (offered : List Ind) : List (Option Ind) → List (List Ind) → Bool × List Ind
       | h :: hs, b :: bs =>
-        let ok := headBest sp.le offered h.toList
-        let r := chk sp (offered ++ sp.eff h b) hs bs
+        let ok := headBest p.spec.le offered h.toList
+        let r := chk (offered ++ p.spec.eff h b) hs bs
         (ok && r.1, r.2)
       | _, _ => (true, offered)
-    let verdict (sp : Spec Ind) : Bool × Bool :=
-      let c := chk sp offered0 heads batches
-      (c.1, headBest sp.le c.2 res && pairwiseB sp.le res)
-    let vf := verdict p.specFull
-    let full := vf.1 && vf.2
-    let v := if full then vf else verdict p.spec
+    let c := chk offered0 heads batches
+    let resOK := headBest p.spec.le c.2 res && pairwiseB p.spec.le res
     return [("model", model),
             ("oracle", Json.mkObj [("trace_complete", Json.bool (heads.length == batches.length)),
-                                   ("best_known_before_each_generation", Json.bool v.1),
-                                   ("result_is_best_of_everything_offered", Json.bool v.2)]),
-            ("info", Json.mkObj [("full_property_holds", Json.bool full)])]
+                                   ("best_known_before_each_generation", Json.bool c.1),
+                                   ("result_is_best_of_everything_offered", Json.bool resOK)])]
 
 /-- the VRP solver seeded with a feasible initial solution (trace only: nothing for the model to predict);
     `cmp` = `goal.total_order(result, initial)` computed by the real objective -/
